@@ -98,10 +98,10 @@ class HTML5(_Renderer):
         s = _Renderer.processFileContent(self, document, s)
 
         # Remove empty paragraphs
-        s = re.compile(r'<p>\s*</p>', re.I).sub(r'', s)
+        s = re.compile(r'<p>\s*</p>', re.I|re.A).sub(r'', s)
 
         # Add a non-breaking space to empty table cells
-        s = re.compile(r'(<(td|th)\b[^>]*>)\s*(</\2>)', re.I).sub(r'\1&nbsp;\3', s)
+        s = re.compile(r'(<(td|th)\b[^>]*>)\s*(</\2>)', re.I|re.A).sub(r'\1&nbsp;\3', s)
 
         for fun in document.rendererdata['html5'].get('processFileContents', []):
             s = fun(document, s)
